@@ -4,7 +4,7 @@
 WT=$1; CH=$2; DEST=/verif/seeded/$3
 set -u
 cd $WT && git checkout -q -- . 
-LINK="$WT/src/String.cpp $WT/src/Memory.cpp $WT/src/Debug.cpp $WT/src/Process.cpp $WT/src/Crypto/Sha256.cpp $WT/src/Error.cpp $WT/src/Thread.cpp $WT/src/Mutex.cpp $WT/src/Signal.cpp $WT/src/File.cpp $WT/src/Time.cpp $WT/src/Monitor.cpp $WT/src/Semaphore.cpp $WT/src/Directory.cpp $WT/src/Console.cpp $WT/src/Log.cpp $WT/src/Math.cpp $WT/src/System.cpp $WT/src/Variant.cpp $WT/src/Callback.cpp $WT/src/Future.cpp $WT/src/Library.cpp"
+LINK="$(ls $WT/src/*.cpp $WT/src/*/*.cpp)"
 build() { g++ -std=c++11 -g -fsanitize=address,undefined -fno-sanitize-recover=undefined -w -I$WT/include $CH/demo.cpp $LINK -pthread -ldl -o $CH/demo.bin 2>$CH/build.log; }
 build || { echo "BUILD-FAIL clean"; exit 2; }
 ( cd $CH && timeout 300 ./demo.bin >/dev/null 2>&1 ); A=$?
